@@ -56,6 +56,7 @@ def run():
                                 raised = 'IdentityError'
                             except Exception as ex:      # noqa
                                 raised = type(ex).__name__
+                            why = ''
                             ok = (raised == 'IdentityError') if expect_raise else raised is None
                             if ok and raised is None and not batch_error:
                                 for r in resps:
@@ -63,8 +64,15 @@ def run():
                                                  and (type(q.id), q.id) == (type(r.id), r.id)), None)
                                     if r.related is not want:
                                         ok = False
+                                # C08: results read by position / as a tuple are attributed to the calls in the order
+                                # the calls were made, whatever order the server used in its array
+                                linked = [r for r in bresp if r.related is not None]
+                                calls = [q for q in reqs if q.id is not None and any(r.related is q for r in resps)]
+                                if [r.related for r in linked] != calls and not why:
+                                    ok = False
+                                    why = 'responses (hence BatchResponse.result / indexing) are not in the order of the calls'
                             if not ok and len(violations) < 5:
                                 violations.append({'strict': strict, 'request_ids': list(map(repr, rids)),
                                                    'response_ids': list(map(repr, pids)), 'batch_error': batch_error,
-                                                   'expected_raise': bool(expect_raise), 'raised': raised})
+                                                   'expected_raise': bool(expect_raise), 'raised': raised, 'problem': why})
     return cases, violations
